@@ -105,3 +105,18 @@ package main
 //@   calls GetAPIToken#1: set tok = $r
 //@   calls SignLocator#1: requires $0 == rtr.cluster && $2 == tok
 //@   calls ResponseWriter.Write#1: requires put
+
+// --------------------------------------------------------------------- C07
+// keepstore's wrappers pass the cluster's TTL and signing key and map errors:
+// ExpiredError iff the signature is well formed but expired, PermissionError
+// for every other failure.
+//@ func VerifySignature property C07
+//@   ghost inner error = nil
+//@   calls keepclient.VerifySignature#1: requires $0 == signedLocator && $1 == apiToken && $2 == arvados.Duration.Duration(cluster.Collections.BlobSigningTTL) && string($3) == cluster.Collections.BlobSigningKey
+//@   calls keepclient.VerifySignature#1: set inner = $r
+//@   ensures (result == nil) == (inner == nil)
+//@   ensures (result == iface(ExpiredError)) == (inner == keepclient.ErrSignatureExpired)
+//@   ensures result != nil && result != iface(ExpiredError) ==> result == iface(PermissionError)
+
+//@ func SignLocator property C07
+//@   calls keepclient.SignLocator#1: requires $0 == blobLocator && $1 == apiToken && $2 == expiry && $3 == arvados.Duration.Duration(cluster.Collections.BlobSigningTTL) && string($4) == cluster.Collections.BlobSigningKey
